@@ -1290,7 +1290,10 @@ class Interp:
             self.unit = units[0]
             try:
                 init = [c for c in d.inner if not c.kind.endswith('Attr')][-1]
-                return self.eval_init(init, d.dtype or d.type, {})
+                v = self.eval_init(init, d.dtype or d.type, {})
+                if isinstance(v, Obj) and v.label is None:
+                    v.label = 'g:' + name
+                return v
             finally:
                 self.unit = saved
         t = (n.dtype or n.type or '')
